@@ -122,6 +122,15 @@ let dispatch cmd =
       ^ jres jn (parse_quirks (dump_quirks q) (z_of_int (-1))) ^ "]"
   | "parse_layout" -> let t = ntext () in jres (fun (l, e) -> "[" ^ jl ji l ^ "," ^ ji e ^ "]") (parse_layout t)
   | "parse_quirks" -> let v = nz () in let t = ntext () in jres jn (parse_quirks t v)
+  | "read_payload" -> let t = ntext () in
+      jres (fun ((d, v), hs) -> "[" ^ (match d with Request -> "\"request\"" | Response -> "\"response\"") ^ "," ^ ji v ^ ","
+                                ^ jl (fun h -> "[" ^ jtext h.ph_name ^ "," ^ jtext h.ph_value ^ "]") hs ^ "]") (read_payload t)
+  | "fp_http" -> let lines = nlist ntext in let t = ntext () in
+      (match parse_file lines with
+       | Err e -> "{\"dberr\":" ^ jerr e ^ "}"
+       | Ok d -> jres (fun ((m, dis), ((dir, v), hs)) ->
+           "[" ^ jopt (fun r -> ji r.rc_line) m ^ "," ^ jb dis ^ "," ^ (match dir with Request -> "\"request\"" | Response -> "\"response\"") ^ "," ^ ji v ^ ","
+           ^ jl (fun h -> "[" ^ jtext h.ph_name ^ "," ^ jtext h.ph_value ^ "]") hs ^ "]") (fp_http d t))
   | _ -> failwith ("unknown command " ^ cmd)
 
 let () =
